@@ -22,6 +22,7 @@ def descriptors(items, outs):
         return None
     toks = outs[1:-1]
     descs, kept, k = [], [], 0
+    descriptors.in_xml = []          # the XML refers to point clouds and image blobs, not to blobs added with add_blob
     for it in items:
         if k >= len(toks):
             return None
@@ -43,6 +44,7 @@ def descriptors(items, outs):
                     return None
                 descs.append("%s:%s" % (o, ",".join(specgen.bare_type(t) for _, t in part[1])))
             kept.append(part)
+            descriptors.in_xml.append(it[0] != "B")
     return (descs, kept) if k == len(toks) else None
 
 
@@ -106,13 +108,32 @@ def check_written(rep, progs):
             skipped += 1        # the writer could not be created or finalize did not return Ok: nothing is claimed about the file
             continue
         descs, kept = dk
+        stated = [d for d, x in zip(descs, descriptors.in_xml) if x]
         if any(o.startswith("e") for o in outs):
             partly += 1
         dec_lines.append("SPECDEC %s %s" % (dev, " ".join(descs)))
-        meta.append((i, dev, descs, xml, kept))
+        meta.append((i, dev, descs, xml, kept, stated))
     dec = core.run_cases(core.DRIVER, dec_lines)
     rep.count(len(dec_lines))
-    for (i, dev, descs, xml, kept), d in zip(meta, dec):
+    # the XML plugged in: the extracted xml_parse + extract_all must find, in the file's own XML, exactly the
+    # sections the writer published, and the file must be well formed with those (FileSpecXml.spec_wellformed_xml)
+    decx = core.run_cases(core.DRIVER, ["SPECDECX " + m[1] for m in meta])
+    rep.count(len(meta))
+    for (i, dev, descs, xml, kept, stated), d in zip(meta, decx):
+        head = dict(t.split("=", 1) for t in d.split() if "=" in t)
+        got = sorted(x for x in head.get("dx", "none").split(";") if x) if head.get("dx") != "none" else None
+        bad = None
+        if got is None:
+            bad, cls = "the XML of a finalized file does not parse or does not extract under the independent XML specification (%s)" % d[:80], "c02-xml-unparsable"
+        elif got != sorted(stated):
+            bad, cls = "the XML of a finalized file states sections %s, the writer published (point clouds and image blobs) %s" % (got[:4], sorted(stated)[:4]), "c02-xml-descriptors"
+        elif head.get("wfx") != "1":
+            bad, cls = "the file is not well formed with the descriptors its own XML states (%s)" % d[:80], "c02-illformed-xml"
+        if bad:
+            n_dir += 1
+            failed.add(i)
+            rep.violation(cls, bad, dict(kind="written-file", items=[c01.item_tok(x) for x in progs[i]], file=dev, descriptors=descs))
+    for (i, dev, descs, xml, kept, stated), d in zip(meta, dec):
         items = progs[i]
         parts = d.split(" # ")
         head = dict(t.split("=", 1) for t in parts[0].split() if "=" in t)
@@ -326,5 +347,6 @@ def run(rep, tier, rng, replay=None):
     rep.cov["rule"] = ("writer programs of C01 and C06 plus call sequences in which one call fails (out-of-range, mistyped or missing value, rejected prototype; the file must still be well formed and hold the other items) (blobs, images of all four kinds with and without mask, point clouds over the type/width grid, interleaved; preceding content swept "
                        "over residues modulo 1020; packet-capacity boundary) run through the real writer; the finalized file is judged by the extracted spec_wellformed (pages, checksums, "
                        "header, XML range, every section: alignment, position outside checksums, section id, header lengths, packet lengths and stream lengths, data/index offsets, no overlap) "
-                       "and decoded by the extracted spec_decode_file; points and blob bytes must equal the input. The bundled libE57Format files must be accepted and decode to what the "
+                       "and decoded by the extracted spec_decode_file; points and blob bytes must equal the input; the file's own XML, parsed by the extracted xml_parse and "
+                       "extracted by the extracted extract_all (FileSpecXml.dx_of), must state exactly the published sections and the file must be spec_wellformed_xml. The bundled libE57Format files must be accepted and decode to what the "
                        "reader returns; one real file with one defect at a time (40 defects: every clause of the decoder) must be rejected. Correspondence: writer model file = real file byte for byte. distinct = distinct programs")
